@@ -552,6 +552,17 @@ def external(mod, attr, I):
     r = libdt.external(mod, attr, I)
     if r is not L.NOTFOUND:
         return r
+    if mod in ('regex', 're'):
+        import regex as _rx
+        if attr in ('search', 'match', 'fullmatch'):
+            return Builtin('regex.' + attr, lambda I, a, k, _n=attr: _rx_dispatch(I, _n, I.resolve(a[0]), a[1:]))
+        if attr == 'finditer':
+            return Builtin('regex.finditer', lambda I, a, k: _rx_finditer(I, I.resolve(a[0]), a[1]))
+        if attr == 'compile':
+            return Builtin('regex.compile', _rx_compile)
+        if hasattr(_rx, attr) and isinstance(getattr(_rx, attr), int):
+            return int(getattr(_rx, attr))
+        return L.LazyUnknown(f'{mod}.{attr}')
     if mod == 'decimal':
         if attr == 'Decimal':
             return Builtin('Decimal', _b_Decimal)
@@ -602,6 +613,44 @@ def _b_deepcopy(I, a, k):
     return cp(I.resolve(a[0]))
 
 
+def _rx_dispatch(I, how, pattern, a):
+    from . import envmodel as E
+    if how == 'finditer':
+        return _rx_finditer(I, pattern, a[0])
+    return E.regex_call(I, how, pattern, a[0])
+
+
+def _rx_finditer(I, pattern, s):
+    from . import envmodel as E
+    s = I.resolve(s)
+    key = E.pattern_key(pattern)
+    src = pattern.source if isinstance(pattern, E.CompiledPattern) else (pattern if isinstance(pattern, str) else None)
+    if isinstance(s, str) and src is not None:
+        import regex as _rx
+        out = []
+        for m in _rx.finditer(src, s, flags=pattern.flags if isinstance(pattern, E.CompiledPattern) else 0):
+            mv = E.MatchVal(s, m.start(), m.end(), dict(m.groupdict()), False, key)
+            mv.declared_only = True
+            out.append(mv)
+        return out
+    env = getattr(I.env.current, 'regex_env', None) or {}
+    mode = env.get(key, env.get('*', 'any'))
+    if mode == 'none':
+        return []
+    raise Unsupported(f'finditer({key}) on a symbolic string needs an invariant-level model')
+
+
+def _rx_compile(I, a, k):
+    from . import envmodel as E
+    src = I.resolve(a[0])
+    flags = a[1] if len(a) > 1 else k.get('flags', 0)
+    if isinstance(src, str):
+        return E.CompiledPattern(src, None, flags if isinstance(flags, int) else 0)
+    if isinstance(src, (E.ConfigAttr, E.CompiledPattern)):
+        return src
+    return I.unknown('regex.compile of symbolic source')
+
+
 def enum_member(I, cls, name):
     return _L().NOTFOUND
 
@@ -649,6 +698,25 @@ def get_attribute(I, o, name):
         if isinstance(e, L.LazyUnknown):
             return I.unknown(e.reason)
         return e
+    from . import envmodel as E
+    if isinstance(o, E.EnvConfig):
+        return E.get_config_attr(I, o, name)
+    if isinstance(o, E.ConfigAttr):
+        if name in ('search', 'match', 'fullmatch', 'finditer'):
+            return Builtin('pattern.' + name, lambda I, a, k, _p=o, _n=name: _rx_dispatch(I, _n, _p, a))
+        return E.ConfigAttr(o.path + '.' + name)
+    if isinstance(o, E.CompiledPattern):
+        if name in ('search', 'match', 'fullmatch', 'finditer'):
+            return Builtin('pattern.' + name, lambda I, a, k, _p=o, _n=name: _rx_dispatch(I, _n, _p, a))
+        if name == 'pattern':
+            return o.source
+        raise Unsupported('pattern.' + name)
+    if isinstance(o, E.MatchVal):
+        if name == 'string':
+            return o.string
+        return BoundBuiltin(o, name)
+    if isinstance(o, E.EnvFunc):
+        raise Unsupported('attribute of env function')
     if isinstance(o, L.RecView):
         return recview_get(I, o, name)
     if isinstance(o, L.ExcValue):
@@ -719,6 +787,9 @@ def call_method(I, recv, name, args, kwargs):
     r = libdt.call_method(I, recv, name, args, kwargs)
     if r is not L.NOTFOUND:
         return r
+    from . import envmodel as E
+    if isinstance(recv, E.MatchVal):
+        return E.match_method(I, recv, name, args, kwargs)
     raise Unsupported(f'method {name} on {type(recv).__name__}')
 
 
@@ -839,6 +910,14 @@ def str_method(I, s, name, args, kwargs):
     if name in ('isnumeric', 'isdigit', 'isdecimal'):
         # modelled for ASCII digit strings only; other numeric code points are tainted havoc
         return L.wrap_bool(L._ISDIG(t))
+    if name == 'lower':
+        r = SP.lower(s)
+        if r is not SP.NOTFOUND:
+            return r
+    if name == 'strip' and not args:
+        r = SP.strip(s)
+        if r is not SP.NOTFOUND:
+            return r
     if name in ('lower', 'upper', 'strip', 'lstrip', 'rstrip', 'title', 'casefold'):
         return I.env.str_fun(I, name, s, args)
     if name == 'split':
